@@ -249,6 +249,66 @@ def labels(c):
     return [f"{c['kind']}{c['d']}"] + ["matrix:" + m for m in c.get("mclass", [])[:2]]
 
 
+# ------------------------------------------------------------------------------------------- large collections of transformations
+@st.composite
+def big_case(draw, tier="quick"):
+    return {"d": draw(st.sampled_from([2, 3])), "m": draw(Z.params(9)), "mclass": [draw(st.sampled_from(Z.MCLASSES)) for _ in range(3)], "size": draw(st.sampled_from([5, 63, 64, 70])),
+            "int": draw(st.booleans()), "v": draw(Z.params(6))}
+
+
+def run_big(c):
+    """a TransformationCollection of up to 70 matrices (integer-typed or float): inverse, t**-1 and the action on point and line
+    collections agree element by element with the single transformations (the linear-algebra kernels switch algorithm at 64)"""
+    d = c["d"]
+    n = d + 1
+    base = mats(c)
+    size = c["size"]
+    arrs = []
+    for i in range(size):
+        a = np.array(base[i % 3], float) * [1, 2, -1, 3][(i // 3) % 4]
+        if i % 7 == 3:
+            a = a.T.copy()
+        arrs.append(a)
+    A = np.stack(arrs)
+    if c["int"]:
+        if not np.all(A == np.round(A)):
+            raise Skip("not integral")
+        A = A.astype(np.int64)
+    t = TransformationCollection(A)
+    ck = Checker()
+    site = f"big:{'int' if c['int'] else 'float'}:{'>=64' if size >= 64 else '<64'}"
+    inv, f = call(site + ":inverse", t.inverse)
+    if f:
+        return [f]
+    if ck.check(inv.array.shape == A.shape, site + ":inverse:shape", inv.array.shape):
+        prod = np.matmul(inv.array.astype(float), A.astype(float))
+        ck.check(C.peq_all(prod, np.broadcast_to(np.eye(n), prod.shape), 2, 1e-9), site + ":inverse*t=identity", C.short(prod[0].tolist()))
+    p, f = call(site + ":power", lambda: t**-1)
+    if f:
+        ck.add(f)
+    else:
+        ck.check(p.array.shape == A.shape and C.peq_all(p.array, np.linalg.inv(A.astype(float)), 2, 1e-9), site + ":t**-1")
+    pts = np.array([[((7 * i + 3 * j + c["v"][j % len(c["v"])]) % 11) - 5 for j in range(n)] for i in range(size)], float)
+    pts[:, -1] = 1
+    X_ = PointCollection(pts)
+    y, f = call(site + ":apply", lambda: inv * (t * X_))
+    if f:
+        ck.add(f)
+    else:
+        ck.check(y.array.shape == pts.shape and C.peq_all(y.array, pts, 1, 1e-7), site + ":inverse*(t*x)=x:points")
+    lines = np.array([[((5 * i + 2 * j + c["v"][(j + 3) % len(c["v"])]) % 9) - 4 for j in range(n)] for i in range(size)], float)
+    lines[~np.any(lines, axis=1), 0] = 1
+    if d == 2:
+        Lc = G.LineCollection(lines)
+        z, f = call(site + ":apply-lines", lambda: t * Lc)
+        if f:
+            ck.add(f)
+        else:
+            exp = np.einsum("nji,nj->ni", np.linalg.inv(A.astype(float)), lines)  # l' = M^-T l
+            ck.check(z.array.shape == lines.shape and C.peq_all(z.array, exp, 1, 1e-7), site + ":t*lines")
+    return ck.result()
+
+
 LAWS = [
     Law("group", lambda tier: case(tier), run_group, nontrivial, labels, {"quick": 1600, "thorough": 40000},
         "(s*t)*x = s*(t*x), identity, inverse, same kind; action anchored to M@v for point-like objects", shard=400),
@@ -256,6 +316,9 @@ LAWS = [
         "applying t1..tm in sequence = applying their product once", shard=400),
     Law("power", lambda tier: case(tier), run_power, lambda c: c["k"] not in (0, 1), lambda c: [f"k={c['k']}", "coll" if c["kind"].endswith("coll") else "single"],
         {"quick": 600, "thorough": 10000}, "t**k = k-fold composition / inverse power / identity, for single and collection", shard=400),
+    Law("large_collection", lambda tier: big_case(tier), run_big, lambda c: c["size"] >= 64, lambda c: ["int" if c["int"] else "float", "size>=64" if c["size"] >= 64 else "size<64", f"d{c['d']}"],
+        {"quick": 300, "thorough": 5000}, "TransformationCollection of up to 70 (integer-typed or float) matrices: inverse, t**-1, action on points and lines element by element", shard=100,
+        mandatory=("int", "size>=64")),
     Law("polytope_observation", lambda tier: case(tier).filter(lambda c: c["kind"] in ("segment", "segmentcoll", "polygon", "polygoncoll", "triangle", "rectangle")),
         run_polytope_obs, nontrivial, labels, {"quick": 500, "thorough": 10000},
         "cached _line/_plane of transformed polytopes and membership of transformed interior points", shard=400),
